@@ -55,37 +55,53 @@ def conv(t, w=None):
 
 
 class Pruner:
-    """incremental feasibility checks under the machine's assumptions"""
+    """incremental feasibility checks under the machine's assumptions.  Answers 'feasible' without the solver when one of
+    the models of earlier satisfiable checks already satisfies the condition (and every base assumption)."""
     def __init__(self, timeout_ms=2000):
         self.s = z3.SimpleSolver()
         self.s.set('timeout', timeout_ms)
         self.nass = 0
-        self.calls = 0; self.pruned = 0; self.time = 0.0
+        self.calls = 0; self.pruned = 0; self.time = 0.0; self.model_hits = 0; self.unknown = 0
+        self.base = []
+        self.models = []
+
+    def add_base(self, t):
+        if t is True: return
+        self.base.append(t)
+        self.s.add(conv(t, 0))
 
     def sync(self, assumptions):
         while self.nass < len(assumptions):
             a = assumptions[self.nass]; self.nass += 1
-            if a is True: continue
-            self.s.add(conv(a, 0))
+            self.add_base(a)
 
     def feasible(self, cond):
         """False only if cond is definitely unsatisfiable under the assumptions"""
-        import time
+        import time, os
+        from .term import evaluate
         if cond is True: return True
         if cond is False: return False
         t0 = time.time()
         self.calls += 1
+        for md, cache in reversed(self.models):
+            if evaluate(cond, md, cache) is True and all(evaluate(a, md, cache) is True for a in self.base):
+                self.model_hits += 1; self.time += time.time() - t0
+                return True
         e = conv(cond, 0)
         self.s.push(); self.s.add(e)
         r = self.s.check()
+        if r == z3.sat:
+            m = self.s.model(); md = {}
+            for d in m.decls():
+                v = m[d]
+                if z3.is_bool(v): md[d.name()] = z3.is_true(v)
+                elif z3.is_bv_value(v): md[d.name()] = v.as_long()
+            self.models.append((md, {}))
+            if len(self.models) > 6: self.models.pop(0)
+        elif r != z3.unsat: self.unknown += 1
         self.s.pop()
         dt = time.time() - t0
         self.time += dt
-        import os
-        if dt > 1.0 and os.environ.get('XSYM_DUMP_SLOW'):
-            self.s.push(); self.s.add(e)
-            open('/tmp/slow_%d.smt2' % self.calls, 'w').write(self.s.to_smt2()); self.s.pop()
-            print('SLOW feasibility check %d: %.2fs -> %s' % (self.calls, dt, r))
         if r == z3.unsat:
             self.pruned += 1
             return False
